@@ -2,10 +2,12 @@ package props
 
 import (
 	"go/ast"
+	"go/token"
 	"go/types"
 	"strings"
 
 	"golang.org/x/tools/go/cfg"
+	"golang.org/x/tools/go/packages"
 
 	"j5verif/checker/core"
 	"j5verif/checker/rules"
@@ -145,7 +147,7 @@ func soleParser(r *core.Run) {
 // parseBase62 to a nil error passes a test that the parsed number is not
 // negative (or that the text does not start with a sign).
 func signRejected(r *core.Run) {
-	r.Rule("R-FLOW/sign", "in the function of lib/id62 that parses text with (*big.Int).SetString, every return of a nil error is reached only where the parsed number is known not to be negative (X.Sign() < 0 false, X.Sign() >= 0 true) or the text is known not to start with '-': Int.Bytes drops the sign, so a negative value would alias the identifier of its magnitude")
+	r.Rule("R-FLOW/sign", "in the function of lib/id62 that parses text with (*big.Int).SetString, every return of a nil error is reached only where the parsed number is known not to be negative (X.Sign() < 0 false, X.Sign() >= 0 true), the text is known not to start with '-', or the whole text was checked before (a failing regexp match of a ^[class]{n}$ pattern, or a loop that looks every byte up in a table filled from a constant alphabet, returns an error; the class / alphabet has no '-'): Int.Bytes drops the sign, so a negative value would alias the identifier of its magnitude")
 	pk := r.P.Pkg("lib/id62")
 	if pk == nil {
 		return
@@ -180,6 +182,8 @@ func signRejected(r *core.Run) {
 				o.Auto("the parsed number is known not to be negative")
 			case f.False[textArg+"[0] == '-'"] || f.True[textArg+"[0] != '-'"] || f.False["strings.HasPrefix("+textArg+", \"-\")"]:
 				o.Auto("the text is known not to start with a minus sign")
+			case charsValidated(pk, info, fd, textArg, ret):
+				o.Auto("every character of the text is checked against a set without '-' before the return")
 			default:
 				o.Fail("success is returned for text that big.Int.SetString read as a negative number: Bytes() drops the sign, so \"-1\" parses to the identifier of \"1\" although a negative value does not fit in 16 bytes")
 			}
@@ -187,4 +191,197 @@ func signRejected(r *core.Run) {
 		})
 	})
 	r.Floor("R-FLOW/sign", 1, "parseBase62")
+}
+
+// charsValidated: before ret, at the top level of fd, the text is checked character by character
+// against a set that has no minus sign, and the failing case returns a non-nil error.
+func charsValidated(pk *packages.Package, info *types.Info, fd *ast.FuncDecl, text string, ret *ast.ReturnStmt) bool {
+	failsOut := func(body *ast.BlockStmt) bool {
+		if body == nil || len(body.List) == 0 {
+			return false
+		}
+		rs, ok := body.List[len(body.List)-1].(*ast.ReturnStmt)
+		return ok && len(rs.Results) > 0 && !core.IsNilIdent(info, rs.Results[len(rs.Results)-1])
+	}
+	// the constant string a package-level variable is built from: regexp.MustCompile(S), or a
+	// function literal that ranges over S
+	constOf := func(e ast.Expr) (string, string) {
+		id, ok := core.Unparen(e).(*ast.Ident)
+		if !ok {
+			return "", ""
+		}
+		obj, _ := info.ObjectOf(id).(*types.Var)
+		if obj == nil || obj.Parent() != pk.Types.Scope() {
+			return "", ""
+		}
+		for _, file := range pk.Syntax {
+			for _, d := range file.Decls {
+				gd, ok := d.(*ast.GenDecl)
+				if !ok {
+					continue
+				}
+				for _, sp := range gd.Specs {
+					vs, ok := sp.(*ast.ValueSpec)
+					if !ok {
+						continue
+					}
+					for i, nm := range vs.Names {
+						if info.ObjectOf(nm) != types.Object(obj) || i >= len(vs.Values) {
+							continue
+						}
+						c, ok := core.Unparen(vs.Values[i]).(*ast.CallExpr)
+						if !ok {
+							continue
+						}
+						strOf := func(a ast.Expr) (string, bool) {
+							if s, ok := core.ConstString(info, a); ok {
+								return s, true
+							}
+							if aid, ok := core.Unparen(a).(*ast.Ident); ok {
+								if def := pkgVarInit(pk, info, info.ObjectOf(aid)); def != nil {
+									return core.ConstString(info, def)
+								}
+							}
+							return "", false
+						}
+						if core.CalleeName(info, c) == "regexp.MustCompile" && len(c.Args) == 1 {
+							if s, ok := strOf(c.Args[0]); ok {
+								return "regexp", s
+							}
+						}
+						if fl, ok := c.Fun.(*ast.FuncLit); ok {
+							var src string
+							ast.Inspect(fl.Body, func(n ast.Node) bool {
+								if rg, ok := n.(*ast.RangeStmt); ok {
+									if s, ok := strOf(rg.X); ok {
+										src = s
+									}
+								}
+								return true
+							})
+							if src != "" {
+								return "table", src
+							}
+						}
+					}
+				}
+			}
+		}
+		return "", ""
+	}
+	classHasMinus := func(pat string) bool {
+		// ^[class]{n}$
+		if !strings.HasPrefix(pat, "^[") || !strings.HasSuffix(pat, "$") {
+			return true
+		}
+		end := strings.Index(pat, "]")
+		if end < 0 {
+			return true
+		}
+		cls := pat[2:end]
+		if strings.HasPrefix(cls, "^") || strings.ContainsAny(cls, "\\") {
+			return true
+		}
+		rs := []rune(cls)
+		for i := 0; i < len(rs); i++ {
+			if i+2 < len(rs) && rs[i+1] == '-' {
+				if rs[i] <= '-' && '-' <= rs[i+2] {
+					return true
+				}
+				i += 2
+				continue
+			}
+			if rs[i] == '-' {
+				return true
+			}
+		}
+		return false
+	}
+	mentionsText := func(e ast.Expr) bool {
+		hit := false
+		ast.Inspect(e, func(n ast.Node) bool {
+			if x, ok := n.(ast.Expr); ok && core.ExprStr(x) == text {
+				hit = true
+			}
+			return !hit
+		})
+		return hit
+	}
+	for _, st := range fd.Body.List {
+		if st.Pos() >= ret.Pos() {
+			break
+		}
+		switch x := st.(type) {
+		case *ast.IfStmt:
+			// if !P.MatchString(text) { return err }
+			u, ok := core.Unparen(x.Cond).(*ast.UnaryExpr)
+			if !ok || u.Op != token.NOT || !failsOut(x.Body) {
+				continue
+			}
+			c, ok := core.Unparen(u.X).(*ast.CallExpr)
+			if !ok || core.CalleeName(info, c) != "(*regexp.Regexp).MatchString" || len(c.Args) != 1 || !mentionsText(c.Args[0]) {
+				continue
+			}
+			if kind, s := constOf(c.Fun.(*ast.SelectorExpr).X); kind == "regexp" && !classHasMinus(s) {
+				return true
+			}
+		case *ast.ForStmt, *ast.RangeStmt:
+			ok := false
+			ast.Inspect(x, func(n ast.Node) bool {
+				is, isIf := n.(*ast.IfStmt)
+				if !isIf || !failsOut(is.Body) {
+					return true
+				}
+				u, isNot := core.Unparen(is.Cond).(*ast.UnaryExpr)
+				if !isNot || u.Op != token.NOT {
+					return true
+				}
+				ix, isIx := core.Unparen(u.X).(*ast.IndexExpr)
+				if !isIx {
+					return true
+				}
+				if kind, s := constOf(ix.X); kind == "table" && !strings.Contains(s, "-") {
+					ok = true
+				}
+				return true
+			})
+			// the loop must run over the whole text
+			if ok {
+				whole := false
+				switch l := x.(type) {
+				case *ast.RangeStmt:
+					whole = mentionsText(l.X)
+				case *ast.ForStmt:
+					whole = l.Cond != nil && mentionsText(l.Cond)
+				}
+				if whole {
+					return true
+				}
+			}
+		}
+	}
+	return false
+}
+
+// pkgVarInit: the initialiser of a package-level variable or constant.
+func pkgVarInit(pk *packages.Package, info *types.Info, obj types.Object) ast.Expr {
+	if obj == nil {
+		return nil
+	}
+	for _, file := range pk.Syntax {
+		for _, d := range file.Decls {
+			if gd, ok := d.(*ast.GenDecl); ok {
+				for _, sp := range gd.Specs {
+					if vs, ok := sp.(*ast.ValueSpec); ok {
+						for i, nm := range vs.Names {
+							if info.ObjectOf(nm) == obj && i < len(vs.Values) {
+								return vs.Values[i]
+							}
+						}
+					}
+				}
+			}
+		}
+	}
+	return nil
 }
